@@ -214,6 +214,7 @@ struct Proto {
       op_end();
     }
     if (ctx.held) {
+      point(); // the held guard is used "some time later": other threads may run in between
       op_begin(OP_READ_HOLD, -1);
       deref(ctx.held, ctx.held_id, "guard held across later operations");
       ctx.held.reset();
@@ -256,7 +257,9 @@ struct Proto {
     const int T = (int)opt("T", 2), m = (int)opt("m", 2), ncells = (int)opt("cells", 1);
     const long mask = opt("ops", 0xff);
     const int gens = (int)opt("gens", 1);
-    const int flush_rounds = (int)opt("flush", 8);
+    // rounds of the final public-API flush: schemes that look at one thread record per critical-region entry (debra)
+    // need (records) entries per epoch and three epochs; 8 rounds were too few for three worker threads (false LEAK)
+    const int flush_rounds = (int)opt("flush", 6 * (T + 1) + 6);
     int alpha[16], na = 0;
     for (int o = 0; o < NOPS_ALPHABET; o++)
       if (mask & (1 << o)) alpha[na++] = o;
@@ -273,6 +276,20 @@ struct Proto {
       do_op(OP_COPY_READ, cells[0], wctx);
       do_op(OP_RG_READ, cells[0], wctx);
       flush(1);
+      // the footprint of one thread record is an upper bound only if T0 has needed at least as many protection
+      // slots at the same time as any worker can: with the dynamic strategies a record grows with the number of
+      // simultaneously held guards (hazard eras: guards acquired in different eras), which for a worker depends on
+      // the schedule.  No operation holds more than 3 guards; T0 holds 5, each acquired in a later era.  (The first
+      // version measured only the sequential usage and raised a false BOOKKEEPING alarm for dynamic hazard eras
+      // in the thorough tier.)  Static strategies refuse the extra guards: harmless.
+      try {
+        GP h[5];
+        for (int k = 0; k < 5; k++) {
+          h[k].acquire(cells[0], std::memory_order_acquire);
+          flush(1);
+        }
+      } catch (const std::exception&) {
+      }
       op_end();
       bk_warm = heap_live_with_tag(0);
       unit = bk_warm - bk_before;
